@@ -155,6 +155,8 @@ func runC09(w *World, tier string) (bool, interface{}) {
 	injected := 0
 	judged := 0
 	var kinds []string
+	forceNext := false               // the next genuine message gets a forged companion for sure
+	wrappedRounds := map[string]bool{} // round ids only reinit envelopes of the adversary name
 	w.Board.PreAppend = append(w.Board.PreAppend, func(m storage.Message, by int) {
 		if by < 0 || injected >= budget {
 			return
@@ -163,7 +165,7 @@ func runC09(w *World, tier string) (bool, interface{}) {
 		if m.Event == string(spf.EventInitProposal) || m.Event == string(types.ReinitDKG) {
 			return
 		}
-		if !w.Tape.Bool(1, 4, "inject?") {
+		if !forceNext && !w.Tape.Bool(1, 4, "inject?") {
 			return
 		}
 		kind := c09Kinds[w.Tape.Choose(len(c09Kinds), "kind")]
@@ -171,12 +173,48 @@ func runC09(w *World, tier string) (bool, interface{}) {
 		if bytes.Equal(x.Data, m.Data) && bytes.Equal(x.Signature, m.Signature) && x.SenderAddr == m.SenderAddr {
 			return // mutation was a no-op
 		}
+		forceNext = false
+		if w.Tape.Bool(1, 5, "wrapInReinit") {
+			// the forgery travels inside a reinitialisation envelope for a
+			// brand-new round id: the envelope itself is exempt, but what it
+			// carries is aimed at the existing round and bears no valid signature
+			id := freshRoundID(w, uint64(len(w.Board.Msgs)))
+			parts, thr := reinitParticipants(w, m.DkgRoundID)
+			env := reinitEnvelope(w, by, id, thr, parts, []storage.Message{x})
+			injected++
+			kinds = append(kinds, "reinit-wrapped/"+kind+"@"+m.Event)
+			w.Stats.Fault("mutate-reinit-wrapped")
+			wrappedRounds[id] = true
+			w.Board.InjectMsg(env, &Inject{Kind: "reinit-wrapped/" + kind, Expect: "existing-rounds-unchanged", Detail: id + "|" + m.Event})
+			return
+		}
 		injected++
 		kinds = append(kinds, kind+"@"+m.Event)
 		w.Stats.Fault("mutate-" + kind)
 		w.Board.InjectMsg(x, &Inject{Kind: kind, Expect: "reject"})
 	})
+	for _, op := range c.Ops {
+		// the operators do not carry the adversary's reinitialisation operations to their machines
+		op.Filter = func(o *types.Operation) bool { return !wrappedRounds[o.DKGIdentifier] }
+	}
 	c.L.OnInjectedConsumed = func(nd *HotNode, off uint64, inj *Inject, before, after map[string][]byte, failed bool, pan string) {
+		if inj.Expect == "existing-rounds-unchanged" {
+			judged++
+			w.Abstract[inj.Kind] = true
+			id, ev := inj.Detail, ""
+			if i := strings.IndexByte(id, '|'); i >= 0 {
+				id, ev = id[:i], id[i+1:]
+			}
+			if pan != "" {
+				w.Fail("C09", "panic-on-unauthenticated-message/"+inj.Kind+"/"+ev, pan)
+				return
+			}
+			if d := existingRoundsDiff(before, after, id); len(d) > 0 {
+				w.Fail("C09", "existing-round-changed-by-message-inside-reinit-envelope/"+strings.TrimPrefix(inj.Kind, "reinit-wrapped/")+"/"+ev,
+					fmt.Sprintf("%s consumed a reinitialisation envelope for the unused round id %.8s (offset %d) that carries a %s variant of a genuine %s message of an existing round; that round / the signature store changed: %v", nd.Name, id, off, inj.Kind, ev, d))
+			}
+			return
+		}
 		if inj.Expect != "reject" {
 			return
 		}
@@ -212,10 +250,70 @@ func runC09(w *World, tier string) (bool, interface{}) {
 			return len(c.Tr.Order) > before && c.Tr.AllHaveBatch(c.Tr.LastBatch(), members) && c.AllInState(round, StIdle, members)
 		}, 400*n)
 	}
+	// a batch cancelled by failure reports, then a new proposal: forged messages
+	// now meet a round that waits in a cancelled-batch state
+	cancelPhase := false
+	if ready && !w.Failed() && c.AllInState(round, StIdle, members) && w.Tape.Bool(1, 2, "cancelledBatch") {
+		cancelPhase = true
+		w.Stats.Fault("batch-cancelled-by-error-reports")
+		failing := map[int]bool{}
+		for _, i := range permOf(w, n)[:n-t+1] {
+			failing[i] = true
+		}
+		for i, op := range c.Ops {
+			i, op := i, op
+			op.Tamper = func(o *types.Operation, result []byte) []byte {
+				if !o.IsSigningState() || !failing[i] {
+					return result
+				}
+				pid := -1
+				if d := w.Nodes[i].Dump(round); d != nil {
+					if id, ok := d.Payload.IDs[w.Nodes[i].Name]; ok {
+						pid = id
+					}
+				}
+				if pid < 0 {
+					return result
+				}
+				return SignerErrorResult(o, pid, "event_signing_partial_sign_error_received", "machine could not sign")
+			}
+		}
+		before := len(c.Tr.Order)
+		c.ProposeFiles(w.Tape.Choose(n, "proposer"), round, map[string][]byte{"c09-cancelled": []byte("nobody signs this")})
+		c.L.RunUntil(func() bool {
+			if len(c.Tr.Order) <= before {
+				return false
+			}
+			for _, i := range members {
+				if !strings.Contains(w.Nodes[i].RoundState(round), "cancelled") {
+					return false
+				}
+			}
+			return true
+		}, 300*n)
+		for _, op := range c.Ops {
+			op.Tamper = nil
+		}
+		stuck := true
+		for _, i := range members {
+			if !strings.Contains(w.Nodes[i].RoundState(round), "cancelled") {
+				stuck = false
+			}
+		}
+		if stuck && !w.Failed() {
+			w.Stats.Probe("round-in-cancelled-batch-state")
+			injected, forceNext = 0, true
+			before = len(c.Tr.Order)
+			c.ProposeFiles(w.Tape.Choose(n, "proposer"), round, map[string][]byte{"c09-after-cancel": []byte("sign me now")})
+			c.L.RunUntil(func() bool {
+				return len(c.Tr.Order) > before && c.Tr.AllHaveBatch(c.Tr.LastBatch(), members) && c.AllInState(round, StIdle, members)
+			}, 400*n)
+		}
+	}
 	if !w.Failed() {
 		c.L.Quiesce(10)
 	}
-	if !w.Failed() {
+	if !w.Failed() && !cancelPhase {
 		done := c.AllInState(round, StIdle, members) && len(c.Tr.Order) > 0 && c.Tr.AllHaveBatch(c.Tr.LastBatch(), members)
 		if !done {
 			sort.Strings(kinds)
